@@ -156,6 +156,8 @@ pub enum Ex {
     AsType(TyE, Box<Ex>),
     /// C++ list initialisation of a temporary: `S { a, b }`
     Brace(TyE, Vec<Init>),
+    /// method call on an object: `s.f(args)`
+    MCall(Box<Ex>, String, Vec<Ex>),
 }
 
 #[derive(Clone, Debug)]
@@ -222,6 +224,7 @@ pub struct FuncD {
 pub struct StructD {
     pub name: String,
     pub fields: Vec<(TyE, String, Vec<usize>)>,
+    pub methods: Vec<FuncD>,
 }
 
 #[derive(Clone, Debug)]
@@ -477,10 +480,17 @@ impl Parser {
                 self.types.insert(name.clone());
                 self.expect_p("{")?;
                 let mut fields = Vec::new();
+                let mut methods = Vec::new();
                 while !self.is_p("}") {
                     let mut a = Vec::new();
                     self.skip_attributes(&mut a)?;
                     let ty = self.parse_type()?;
+                    // a member function
+                    if matches!(self.peek(), Tok::Id(_)) && matches!(self.peek_at(1), Tok::P("(")) {
+                        let mname = self.ident()?;
+                        methods.push(self.function(ty, mname, false, a)?);
+                        continue;
+                    }
                     loop {
                         let n = self.ident()?;
                         let dims = self.dims()?;
@@ -499,7 +509,7 @@ impl Parser {
                 }
                 self.expect_p("}")?;
                 self.expect_p(";")?;
-                u.structs.push(StructD { name, fields });
+                u.structs.push(StructD { name, fields, methods });
                 continue;
             }
             let mut is_template = false;
@@ -1029,7 +1039,9 @@ impl Parser {
             } else if self.eat_p(".") {
                 let m = self.ident()?;
                 if self.is_p("(") {
-                    return Err(format!("method call .{}() is outside the supported subset", m));
+                    let a = self.args()?;
+                    e = Ex::MCall(Box::new(e), m, a);
+                    continue;
                 }
                 e = Ex::Member(Box::new(e), m);
             } else if self.eat_p("++") {
